@@ -301,6 +301,21 @@ func runCliCase(c cliCase, dir string, useBin bool, report func(string, string, 
 		if kind == c.Err.Kind && (kind != "malformed" || line == wantLine) {
 			return
 		}
+		// with more than one problem present, which of the errors wins is a detail of the pipeline
+		// order that no property fixes: only success / failure is compared
+		problems := 0
+		if c.Book.P != "none" {
+			problems++
+		}
+		if c.Log.P != "none" {
+			problems++
+		}
+		if !c.SinkOk {
+			problems++
+		}
+		if problems > 1 && (kind == "none") == (c.Err.Kind == "none") && !strings.HasPrefix(kind, "other") {
+			return
+		}
 		shape := "cli-" + c.Err.Kind + "-reported-as-" + strings.SplitN(kind, ":", 2)[0]
 		report(shape, fmt.Sprintf("%s [%s]: book=%+v log=%+v sinkOk=%v: specification: error %q (line %d), code: %q (line %d) %s",
 			strings.Join(shapeArgs[c.Cmd], " "), variant, c.Book, c.Log, c.SinkOk, c.Err.Kind, wantLine, kind, line, detail),
